@@ -106,7 +106,13 @@ def run(model, col, tier):
                 signtest = any(isinstance(c, ast.Compare) and any(isinstance(k, ast.Constant) and k.value in (0, -1) or (isinstance(k, ast.UnaryOp)) for k in [c.left] + c.comparators)
                                for c in ast.walk(e.node))
                 if mentions and signtest and e.val is False:
-                    guarded = True
+                    # fold the guard over sample score lists: it must hold exactly when some score is negative
+                    samples = ([0, 0], [1, 0], [0, 2], [-1, 1], [1, -1], [-1, -1], [3, 1], [])
+                    try:
+                        verdicts = [bool(ev(e.node, {scores_name: s_})) for s_ in samples]
+                        guarded = verdicts == [any(x < 0 for x in s_) for s_ in samples]
+                    except CannotEval:
+                        guarded = True  # unrecognised but sign-testing form: accepted
         col.check(guarded, "R10.1", f"{TYPES}::Function.Match aggregates scores only after a sign test",
                   f"`{unparse(rv)[:60]}` is reached only when no per-argument score is negative",
                   f"`{unparse(rv)[:80]}` adds up per-argument scores that may be the -1 sentinel: an incompatible argument (-1) and a conversion (+1) cancel to 0, "
@@ -329,8 +335,14 @@ def run(model, col, tier):
         col.check(v, "R10.2", f"{TYPES}::Scope.FindFunction outcome {k}", "present and correct",
                   f"outcome `{k}` is missing or wrong: " + "; ".join(problems), TYPES, ff)
     rf = sc.own_method("RegisterFunction")
-    src = unparse(rf)
-    col.check(f"self.__functions[{rf.args.args[1].arg}].append({rf.args.args[2].arg})" in src, "R10.2", f"{TYPES}::Scope.RegisterFunction keeps every overload",
+    from ..sem import local_env as _le, rtext as _rt
+
+    rf_env = _le(rf, allow_impure=True)
+    n_, t_ = rf.args.args[1].arg, rf.args.args[2].arg
+    appended = any(isinstance(c, ast.Call) and last_attr(c) == "append" and len(c.args) == 1 and _rt(c.args[0], rf_env) == t_
+                   and _rt(c.func.value, rf_env) in (f"self.__functions[{n_}]", f"self.__functions.setdefault({n_}, [])", f"self.__functions.setdefault({n_}, list())")
+                   for c in ast.walk(rf))
+    col.check(appended, "R10.2", f"{TYPES}::Scope.RegisterFunction keeps every overload",
               "overloads are appended to the list registered under the name", "registering a function does not append it to the list of its name (an overload replaces or loses another)", TYPES, rf)
     rfn = model.func(TYPES, "ResolveFunction")
     col.check("scope.FindFunction(theType.GetName(), argumentTypes)" in unparse(rfn), "R10.2", f"{TYPES}::ResolveFunction", "unresolved calls go through FindFunction(name, argument types)", None, TYPES, rfn)
@@ -351,14 +363,33 @@ def run(model, col, tier):
               f"order is {order}: a call can be resolved before all overloads of its name are registered, so the result depends on declaration order", CT, ctm)
     reg = ctv.find_method("__RegisterFunction")
     if reg:
-        t = unparse(reg[1])
-        col.check("Resolve(ctx[-1])" in t and "RegisterFunction(funcType.GetName(), funcType)" in t, "R10.3", f"{CT}::__RegisterFunction", "parameter types are resolved, then the function is registered under its name", None, CT, reg[1])
+        r_env = _le(reg[1], allow_impure=True)
+        fp, cp_ = reg[1].args.args[1].arg, reg[1].args.args[2].arg
+        resolves = [c for c in ast.walk(reg[1]) if isinstance(c, ast.Call) and last_attr(c) == "Resolve" and len(c.args) == 1 and _rt(c.args[0], r_env) == f"{cp_}[-1]"
+                    and _rt(c.func.value, r_env) == f"{fp}.GetType()"]
+        regs = [c for c in ast.walk(reg[1]) if isinstance(c, ast.Call) and last_attr(c) == "RegisterFunction" and len(c.args) == 2 and _rt(c.args[1], r_env) == f"{fp}.GetType()"
+                and _rt(c.args[0], r_env) == f"{fp}.GetType().GetName()" and _rt(c.func.value, r_env) == f"{cp_}[-1]"]
+        col.check(bool(resolves) and bool(regs) and min(c.lineno for c in resolves) < min(c.lineno for c in regs), "R10.3", f"{CT}::__RegisterFunction", "parameter types are resolved, then the function is registered under its name", None, CT, reg[1])
     pe = ctv.own_method("_ProcessExpression")
     t = unparse(pe)
     i_children = t.find("for c in expr")
     i_resolve = t.find("expr.ResolveType(scope)")
     col.check(0 <= i_children < i_resolve, "R10.3", f"{CT}::_ProcessExpression arguments typed before the call is resolved", "children are typed first", "a call is resolved before its arguments are typed", CT, pe)
     # ---------------- R10.4 ------------------------------------------------------
+    # every constant a path of Function.Match / Match returns: rejections are negative, and 0 means 'exact match' only
+    for f_, nm in ((fm, "Function.Match"),):
+        for evs, status in paths(f_.body):
+            if status != "return":
+                continue
+            rv = evs[-1].node.value
+            try:
+                val = ev(rv, {})
+            except CannotEval:
+                continue
+            if isinstance(val, int):
+                col.check(val < 0, "R10.4", f"{TYPES}::{nm} constant verdict `return {unparse(rv)}`", "an early (rejecting) return is negative",
+                          f"`return {unparse(rv)}` on the path [{', '.join(t for t, v in cond_atoms(evs, fm_env).items() if v)[:90]}] is not negative: the candidate counts as viable "
+                          "(0 even as an exact match) although the argument list does not fit", TYPES, rv)
     pl = fm.args.args[1].arg
     for evs, status in paths(fm.body):
         if status != "return":
